@@ -820,14 +820,22 @@ func TestVerifC06(t *testing.T) {
 	t0 = time.Now()
 	// A1: DFS, every shard walks every family (subtrees are partitioned by ExploreSharded)
 	dfsDepth := r.Pick(7, 9)
-	for ci, conf := range confs {
-		for k, fk := range c06failKinds {
-			// quick tier: one kind of failed check per configuration (rotating, so that every kind
-			// is used with two configurations); thorough: all three. A2 uses all kinds everywhere.
-			if !r.Thorough() && !r.Replaying() && k != ci%len(c06failKinds) {
-				continue
+	// quick tier: one (kind of failed check, way of removal) per configuration, rotating, so that
+	// every kind is used with two configurations. thorough: all three per configuration at depth
+	// 9, the rotating one one level deeper (run last). A2 uses all check outcomes everywhere.
+	for pass := 0; pass < 2; pass++ {
+		for ci, conf := range confs {
+			for k, fk := range c06failKinds {
+				rot := k == ci%len(c06failKinds)
+				switch {
+				case !r.Thorough() && pass == 0 && rot:
+					c06dfs(t, r, conf, fk, c06relKinds[k], dfsDepth)
+				case r.Thorough() && pass == 0 && !rot:
+					c06dfs(t, r, conf, fk, c06relKinds[k], dfsDepth)
+				case r.Thorough() && pass == 1 && rot:
+					c06dfs(t, r, conf, fk, c06relKinds[k], dfsDepth+1)
+				}
 			}
-			c06dfs(t, r, conf, fk, c06relKinds[k], dfsDepth)
 		}
 	}
 	r.Set("max_time_A1", time.Since(t0).Seconds())
@@ -837,5 +845,5 @@ func TestVerifC06(t *testing.T) {
 	c06e1(r, &idx)
 	r.Set("max_time_B", time.Since(t0).Seconds())
 	r.Set("sum_stack_dumps", c06stackCall)
-	r.Set("bounds", fmt.Sprintf("FailNum 1..3 x SuccNum 1..2; A1 depth %d over {reqOK,reqFail,chkOK,chkFail(kind per family: err/status/timeout),tick,release}; A2 depth %d over 8 ops; B preemption bound %d", dfsDepth, bfsDepth, r.Pick(2, 3)))
+	r.Set("bounds", fmt.Sprintf("FailNum 1..3 x SuccNum 1..2; A1 depth %d (thorough: +1 for one family per configuration) over {reqOK,reqFail,chkOK,chkFail(kind per family: err/status/timeout),tick,release(way per family: direct/BalanceRR.Update/BalanceRR.Release)}; A2 depth %d over 9 ops; B preemption bound %d", dfsDepth, bfsDepth, r.Pick(2, 3)))
 }
